@@ -63,4 +63,29 @@ PROPS = {
         "assumptions": ["retries carry the same write time and the same values"],
         "explanation": "retry_* and older_*_cannot_undo on the table model; the tbl stream replays earlier accepted statements on arbitrary writers (retry) and uses non-monotone write times throughout.",
     },
+    "C03": {
+        "modules": ["S3db.Props.C03"],
+        "tie_files": ["kv/kv.go"],
+        "corr": {
+            "quick": [("proto", ["proto", "-n", "150"])],
+            "thorough": [("proto", ["proto", "-n", "3000"])],
+        },
+        "trusted_base": ["fakes3 semantics of the object store: atomic single-object PUT/GET/DELETE, read-after-write, LIST consistent at a point in time",
+                         "node objects are content-addressed and write-once, so their requests commute with all others and are not scheduled (only root/ requests are)",
+                         "BLAKE2b version names are collision-free"],
+        "assumptions": ["no vacuum runs concurrently (C09/C10 treat vacuum)", "parents of a merge commit are retired in Go map order; the model is told the order (`proto prefer`), the theorems hold for every order"],
+        "explanation": "The request-level transition system (Model/Proto.lean) takes the order of requests inside Commit / moveMergedRoots and the lookup order of Open from Gen.facts (regenerated from kv/kv.go). The invariants are proved for every number of clients, every schedule and crashes anywhere. The proto stream runs 2-3 real kv clients under a deterministic scheduler that releases one root-level request at a time and compares every served request with the model's.",
+    },
+    "C04": {
+        "modules": ["S3db.Props.C04"],
+        "tie_files": ["kv/kv.go"],
+        "corr": {
+            "quick": [("crash", ["crash", "-n", "120"]), ("proto", ["proto", "-n", "60"])],
+            "thorough": [("crash", ["crash", "-n", "2500"]), ("proto", ["proto", "-n", "1000"])],
+        },
+        "trusted_base": ["mast's MakeRoot returns only after every node PUT completed (checked on every trace: all node PUTs precede the version PUT)",
+                         "table contents form a join-semilattice under the merge (C01: on SQL-written rows with distinct write times per transaction)"],
+        "assumptions": ["consecutive transactions carry distinct write times (the default: wall clock); with a constant explicit write_time and different values the middle crash state is outside C01's quantifier"],
+        "explanation": "crash_old_or_new / crash_after_put_is_new / nodes_before_root are proved for every crash point k of commitReqs (order from Gen.facts) and every parent list; the crash stream enumerates EVERY k for SQL transactions, merge-opens and vacuums on the real code and checks old-or-new, acked-implies-new and stability across recovery opens.",
+    },
 }
